@@ -11,7 +11,8 @@ CFG = dict(
                    "(added/removed/modified iff ...), C04_self_empty, C04_swap (permutation), C04_offsets "
                    "(RowToBlockAndOffset addresses the rows), C04_no_dup, C04_get_hashed (sort.Search+equality Get = lookup "
                    "by key for an injective hash), C04_empty_panics_refuted (the pre-7a1623b code panics). Model tied to "
-                   "pkg/diff by differential execution on tables built through ingest.IngestTable.",
+                   "pkg/diff by differential execution on tables built through ingest.IngestTable, incl. the consumers of the events "
+                   "(wrgl diff --no-gui, RowListReader, RowChangeReader, TableReader) and both store arrangements.",
         level_note="Theorems are about coq/model/Diff.v (hand transliteration); tie = correspondence harness over "
                    "diff.DiffTables and diff.VerifFindOverlappingBlocks. The table index is taken to be the first keys of the "
                    "blocks (C03) and key lookup is by key equality (MeowHash collision freedom, see C04_get_hashed).",
@@ -22,7 +23,15 @@ CFG = dict(
              "keys tying on the first component in 3 column layouts, empty/prefix components; keyless tables with equal and "
              "different columns; same pk with different columns, different pk, emitUnchanged; random pairs (disjoint, nested, "
              "edited copy, overlapping). window cases (tag 1): all pairs of strictly increasing first-key vectors of length "
-             "<=4 over 6 words (prefix-related) x every off1 x every prevEnd 0..n, plus random composite vectors. distinct = "
+             "<=4 over 6 words (prefix-related) x every off1 x every prevEnd 0..n, plus random composite vectors. "
+             "flags on tag-0 cases: emitUnchanged on for all exhaustive pairs and a fifth of the block pairs; both tables in one "
+             "object store (default: each table in its own store, db1 != db2) for a third of the exhaustive pairs, a sixth "
+             "of the block pairs and all edge pairs. reader cases (tag 3): DiffTables consumed through RowListReader / "
+             "RowChangeReader (merged cells predicted from the case) + full TableReader pass, over the edge, keyless, "
+             "column, composite, block and random pairs, emitUnchanged alternating. CLI cases (tag 2): `wrgl diff A B "
+             "--no-gui` in-process on a temp repository, 16 (quick) pairs: small, 600-row tables edited at rows "
+             "254/255/256/509, composite keys, keyless, different columns, 4 full blocks, empty side, different pk; as two "
+             "branches, CSV file vs branch, branch vs CSV file; every row of DIFF_*.csv mapped back by cell contents. distinct = "
              "distinct case text; non-trivial = at least one row / both indices non-empty",
         trusted=["row content hash abstracted to a rowid (cells = key values, decimal rowid, constant filler); PK/Sum/OldSum "
                  "hashes mapped back to keys/rows by the harness hashing every key and row with meow over the StrList encoding",
